@@ -33,14 +33,14 @@ RULE = ('(i) pty transport: plans [W,X] [W,W,X] [W,C,X] [W,W,C,X] [C,X] [X] (W =
         '{read_nonblocking(size, 50 ms) retried on TIMEOUT, expect(EOF)} x sizes {1, 7, 2000, 65536} x select/poll. (ii) bulk: '
         '0 B..512 KB written in random splits followed by immediate exit/close on pty, fd, socket and popen transports, '
         'maxread in {1, 64, 2000, 10000, 65536, 1 MB} (incl. fixed 300 KB runs with maxread between one kernel read and the whole stream). (iii) fd and socket transports in-process with peer actions placed at the '
-        'reader\'s select/read/recv sites, in bytes mode and in text mode with multi-byte characters and read sizes 1..7. (iv) PopenSpawn under schedule perturbation (switch interval 10 us, seeded '
+        'reader\'s select/read/recv sites, in bytes mode and in text mode with multi-byte characters and read sizes 1..7. (iv) PopenSpawn: peer actions placed among the system calls of the reader thread (pipe read and, whatever the code under test uses, readiness polls and child-status checks), and schedule perturbation (switch interval 10 us, seeded '
         'yields in the reader thread). Oracle: concatenated results == blocks the peer was acknowledged to have written '
         '(prefix before EOF, equal at EOF), every result <= size, socket timeout unchanged after every call. non-trivial '
         '= placement with an action at a site > 0, or bulk >= 4 KB; distinct by (plan, placement, reader, size, poll)')
 ASSUMPTIONS = ['kernel pty/pipe/socket ordering is trusted; the harness waits until written data is readable on the master before the '
                'reader continues, so "between system call k and k+1" is exact',
                'TIMEOUT is never treated as EOF by the reader loops']
-REQUIRED = ['placements', 'text_mode_placements', 'traces_recorded', 'bulk_runs', 'inproc_placements', 'popen_runs', 'results_checked_le_size',
+REQUIRED = ['placements', 'popen_placements', 'text_mode_placements', 'traces_recorded', 'bulk_runs', 'inproc_placements', 'popen_runs', 'results_checked_le_size',
             'socket_timeout_checks', 'eof_checks']
 
 PLANS = [['W', 'X'], ['W', 'W', 'X'], ['W', 'C', 'X'], ['W', 'W', 'C', 'X'], ['C', 'X'], ['X']]
@@ -570,6 +570,137 @@ def popen_case(case, acc):
         pup.cleanup()
 
 
+def popen_placement(case, acc):
+    """PopenSpawn: peer actions placed among the system calls of the READER THREAD (pipe read, and - whatever a
+    version of the code uses - readiness polls and child-status checks)."""
+    import threading
+    import pexpect.popen_spawn as pp
+    plan, placement, size = case['plan'], case['placement'], case['size']
+    pup = Puppet()
+    ready = threading.Event()
+    written = []
+    state = {'exited': False}
+    main = threading.main_thread()
+    saved = []
+    c = None
+
+    def perform(a):
+        ready.wait(20)
+        act = plan[a]
+        if act == 'W':
+            data = block(a, 3)
+            pup.write(data)
+            written.append(data)
+        else:
+            state['exited'] = True
+            pup.exit(0)
+    sites = Sites([(s0, a) for a, s0 in enumerate(placement)], perform)
+    lock = threading.Lock()
+
+    def at(name):
+        if threading.current_thread() is not main:
+            with lock:
+                sites.at(name)
+    try:
+        real_os = pp.os
+
+        class OsProxy(object):
+            def read(self, fd, n):
+                at('read')
+                return real_os.read(fd, n)
+
+            def __getattr__(self, nm):
+                return getattr(real_os, nm)
+        saved.append((pp, 'os', real_os))
+        pp.os = OsProxy()
+        if hasattr(pp, 'select'):
+            real_sel = pp.select
+
+            class SelProxy(object):
+                def select(self, *a, **k):
+                    at('select')
+                    return real_sel.select(*a, **k)
+
+                def poll(self, *a, **k):
+                    at('poll')
+                    return real_sel.poll(*a, **k)
+
+                def __getattr__(self, nm):
+                    return getattr(real_sel, nm)
+            saved.append((pp, 'select', real_sel))
+            pp.select = SelProxy()
+        c = PopenSpawn(pup.argv, timeout=10, maxread=size)
+        orig_poll = c.proc.poll
+
+        def poll():
+            at('status')
+            return orig_poll()
+        c.proc.poll = poll
+        pup.wait_ready()
+        ready.set()
+        got = b''
+        eof = False
+        t0 = time.time()
+        idle_since = time.time()
+        while time.time() - t0 < 20:
+            try:
+                d = c.read_nonblocking(size, 0.05)
+            except EOF:
+                eof = True
+                break
+            if d:
+                got += d
+                idle_since = time.time()
+                if len(d) > size:
+                    acc.violation('read-longer-than-size:popen', 'read_nonblocking(%d) returned %d bytes' % (size, len(d)), case)
+                    return
+            elif time.time() - idle_since > 0.25:
+                # the reader thread sits in a blocking call: the next scheduled action happens "now"
+                with lock:
+                    if sites.schedule:
+                        _, a = sites.schedule.pop(0)
+                        sites.before_action.append((a, 'blocked'))
+                        perform(a)
+                idle_since = time.time()
+            else:
+                time.sleep(0.002)
+        want = b''.join(written)
+        acc.count('eof_checks')
+        acc.count('popen_placements')
+        tr = ' '.join(sites.trace[:16])
+        acc.seen('distinct_traces', 'popen-thread:' + tr + repr(sites.before_action))
+        desc = 'popen plan %s at reader-thread sites %r (%s); thread trace: %s' % (
+            ''.join(plan), placement, ', '.join('%s before %s' % (plan[a], nm) for a, nm in sites.before_action), tr)
+        if eof and not state['exited']:
+            acc.violation('eof-while-peer-alive:popen', desc, case)
+            return
+        if not eof:
+            acc.violation('no-eof-after-peer-ended:popen', desc, case)
+            return
+        if got != want:
+            mech = 'eof-before-all-data' if want.startswith(got) else 'data-duplicated' if got.startswith(want) else 'data-corrupted'
+            acc.violation(mech + ':popen', desc + '; returned %d of %d bytes' % (len(got), len(want)), case)
+            return
+        if any(s0 > 0 for s0 in placement):
+            acc.count('_distinct_by_construction')
+    finally:
+        ready.set()
+        for mod, name, orig in reversed(saved):
+            setattr(mod, name, orig)
+        if c is not None:
+            try:
+                c.proc.kill()
+            except Exception:
+                pass
+            try:
+                c.proc.wait(5)
+                c.proc.stdin.close()
+                c.proc.stdout.close()
+            except Exception:
+                pass
+        pup.cleanup()
+
+
 # ------------------------------------------------------------------ plan
 
 def plan(tier, seed):
@@ -609,6 +740,9 @@ def plan(tier, seed):
         for maxread in ((10000, 65536) if tier == 'quick' else (5000, 10000, 20000, 65536, 200000)):
             cases.append({'kind': 'bulk', 'tr': tr, 'total': 300000, 'maxread': maxread, 'rs': maxread + len(tr),
                           'reader': 'loop'})
+    for pl in (['W', 'X'], ['W', 'W', 'X'], ['X']):
+        for p in placements(len(pl), 4 if tier == 'quick' else 6):
+            cases.append({'kind': 'popen-placement', 'plan': pl, 'placement': list(p), 'size': 7 if sum(p) % 2 else 2000})
     nb = 10 if tier == 'quick' else 200
     for i in range(nb):
         tr = ['pty', 'fd', 'socket', 'popen'][i % 4]
@@ -639,6 +773,8 @@ def one(case, acc):
             elif k == 'bulk':
                 acc.count('bulk_runs')
                 bulk_case(case, acc)
+            elif k == 'popen-placement':
+                popen_placement(case, acc)
             else:
                 popen_case(case, acc)
     except PeerError as e:
